@@ -316,7 +316,45 @@ func propC17(c C17Case) error {
 			}
 		case "wait", "setpidwait":
 			if len(pending) > 0 {
-				continue // a synchronous request would meet the pending ACKs first; the property does not say what happens
+				// A synchronous request meets the ACKs of the NoWait requests first. The property does not say whether
+				// it may work at all (this library reports the foreign sequence number), so a refusal ends the history.
+				// But those ACKs are WaitForPendingACKs' to consume: a synchronous request that claims success has read
+				// its own reply and left every one of them unread — a kernel refusal among them is still to be reported.
+				plain := o.K == "wait" && o.Hard == 0 && k.Seq != 0 && k.Seq+1 != 0
+				for _, p := range pending {
+					if p.hard != 0 || p.bad != 0 || p.seq == 0 {
+						plain = false
+					}
+				}
+				if !plain {
+					continue
+				}
+				k.OnSend = nil
+				k.Queue = nil
+				for _, p := range pending {
+					k.Push(simk.Ack(p.seq, p.errno, uint16(uapi.A("AUDIT_SET"))))
+				}
+				k.OnSend = func(k *simk.K, s simk.Sent) { k.Push(simk.Ack(s.Seq, o.Errno, s.Type)) }
+				err := c17Set(cl, Op17{Setter: o.Setter + 5, U32: o.U32}, libaudit.WaitForReply)
+				k.OnSend = nil
+				if err != nil {
+					hC17.Class("synchronous-request-meets-pending-acks-and-says-so")
+					return nil
+				}
+				if o.Errno != 0 {
+					return fmt.Errorf("%s (with %d ACKs of NoWait requests unread): ack errno %d but result nil", what, len(pending), o.Errno)
+				}
+				if len(k.Queue) != len(pending) {
+					return fmt.Errorf("%s: the synchronous request reported success and read %d of the %d acknowledgements that belong to NoWait requests (errnos %v): only WaitForPendingACKs consumes those, and it has to report the first kernel error among them",
+						what, len(pending)-len(k.Queue), len(pending), func() (e []int) {
+							for _, p := range pending {
+								e = append(e, p.errno)
+							}
+							return
+						}())
+				}
+				hC17.Class("synchronous-request-leaves-pending-acks-alone")
+				continue
 			}
 			k.Queue = nil
 			k.OnSend = func(k *simk.K, s simk.Sent) {
